@@ -383,7 +383,8 @@ def run_direction(case):
         check(bool(np.all(sgn * total[keep] >= -eps)), "direction:sign",
               lambda: f"{tag}: purely {word} history, responsible learning rate {lr:+g}: applied change "
                       f"{total.tolist()} has elements of the opposite sign", info)
-        moved = bool(np.any(sgn * total[keep] > eps))
+        # strictly: legitimate updates can be tiny (exp(-|t_delta|/tau) with a short time constant)
+        moved = bool(np.any(sgn * total[keep] > 0))
         check(moved, "direction:nomove",
               lambda: f"{tag}: purely {word} history with at least one pair per synapse changed nothing "
                       f"({total.tolist()})", info)
